@@ -2082,6 +2082,7 @@ static char *serr, *snum;
 
 typedef struct {
     Boolean MayChange, DoCross;
+    Boolean Rejected; /* new entry was refused and freed */
 } TEnterStruct, *PEnterStruct;
 
 static PSymbolEntry pPendingPhaseEntry = NULL;
@@ -2150,6 +2151,7 @@ static Boolean SymbolAdder(PTree* PDest, PTree Neu, void* pData) {
         }
         WrXError(ErrNum_DoubleDef, serr);
         FreeSymbolEntry(&NewEntry, TRUE);
+        EnterStruct->Rejected = True;
         return False;
     }
 
@@ -2167,6 +2169,7 @@ static Boolean SymbolAdder(PTree* PDest, PTree Neu, void* pData) {
                                     : ErrNum_ConstantRedefinedAsVariable,
                 serr);
         FreeSymbolEntry(&NewEntry, TRUE);
+        EnterStruct->Rejected = True;
         return False;
     }
 
@@ -2213,7 +2216,7 @@ static Boolean SymbolAdder(PTree* PDest, PTree Neu, void* pData) {
     }
 }
 
-static void EnterLocSymbol(PSymbolEntry Neu) {
+static Boolean EnterLocSymbol(PSymbolEntry Neu) {
     TEnterStruct EnterStruct;
     PTree        TreeRoot;
 
@@ -2239,8 +2242,10 @@ static void EnterLocSymbol(PSymbolEntry Neu) {
             Repass = True;
         }
     }
+    EnterStruct.Rejected = False;
     EnterTree(&TreeRoot, (&Neu->Tree), SymbolAdder, &EnterStruct);
     FirstLocSymbol = (PSymbolEntry)TreeRoot;
+    return !EnterStruct.Rejected;
 }
 
 static void EnterSymbol_Search(
@@ -2258,7 +2263,7 @@ static void EnterSymbol_Search(
     }
 }
 
-static void EnterSymbol(PSymbolEntry Neu, Boolean MayChange, LongInt ResHandle) {
+static Boolean EnterSymbol(PSymbolEntry Neu, Boolean MayChange, LongInt ResHandle) {
     PForwardSymbol  Lauf, Prev;
     PForwardSymbol* RRoot;
     Byte            SearchErg;
@@ -2351,8 +2356,10 @@ static void EnterSymbol(PSymbolEntry Neu, Boolean MayChange, LongInt ResHandle) 
             }
         }
     }
+    EnterStruct.Rejected = False;
     EnterTree(&TreeRoot, &(Neu->Tree), SymbolAdder, &EnterStruct);
     FirstSymbol = (PSymbolEntry)TreeRoot;
+    return !EnterStruct.Rejected;
 }
 
 void PrintSymTree(char* Name) {
@@ -2441,13 +2448,17 @@ PSymbolEntry EnterIntSymbolWithFlags(
     /* variables (SET, system variables like MOMCPU, PADDING, LISTON...) are
        never local to a macro expansion, only constants are */
 
+    /* a rejected entry (symbol double defined) has been freed: do not hand it out */
+
     if ((MomLocHandle == -1) || (DestHandle != -2) || MayChange) {
-        EnterSymbol(pNeu, MayChange, DestHandle);
+        if (!EnterSymbol(pNeu, MayChange, DestHandle)) {
+            return NULL;
+        }
         if (MakeDebug) {
             PrintSymTree(pNeu->Tree.Name);
         }
-    } else {
-        EnterLocSymbol(pNeu);
+    } else if (!EnterLocSymbol(pNeu)) {
+        return NULL;
     }
     return pNeu;
 }
